@@ -11,6 +11,7 @@ class W:
         self.strs = {"string": 0, "": 1}
         self.n = 2
         self.long_ints = long_ints
+        self.literal_repeat = None     # a random.Random enables literal repeats
 
     def pint(self, v, pad=0):
         neg = 1 if v < 0 else 0
@@ -28,6 +29,9 @@ class W:
             self.b.append(x)
 
     def string(self, t, allow_backref=True):
+        # a writer may store a string it has stored before literally again (the reader then remembers it a second time)
+        if allow_backref and t in self.strs and self.literal_repeat is not None and t not in ("string", "") and self.literal_repeat.random() < 0.25:
+            allow_backref = False
         if t in self.strs and allow_backref:
             self.pint(-self.strs[t])
             return
@@ -70,6 +74,8 @@ def build_skeleton_tagfile(rng, bones, poses, extra=True):
     """bones: [(name, parent)], poses: [[12 f32 bit patterns]] -> bytes of a tag file holding
     hkRootLevelContainer -> hkaAnimationContainer -> hkaSkeleton (+ unused types/members/objects)"""
     w = W()
+    if extra and rng.random() < 0.5:
+        w.literal_repeat = rng
     w.b += struct.pack("<II", 0xCAB00D1E, 0xD011FACE)
     w.pint(1); w.pint(3)  # FileInfo, version 3
     types = {}  # name -> index (index 0 = builtin "object")
@@ -89,10 +95,24 @@ def build_skeleton_tagfile(rng, bones, poses, extra=True):
                        ("vecs", TUPLE | T_VEC16, None, 3), ("names", TUPLE | T_STRING, None, 2)]
             rng.shuffle(unused)
         T("hkUnusedThing", None, unused, version=rng.choice([0, 1, 300]))
-    T("hkBaseObject", None, [])
+    # the root of the inheritance chain may declare members of its own (objects of hkaSkeleton then carry presence bits for three levels)
+    base_members = [("baseTag", T_INT, None)] * 1 if (extra and rng.random() < 0.4) else []
+    if base_members and rng.random() < 0.5:
+        base_members = base_members + [("baseFlags", T_BYTE, None)]
+    T("hkBaseObject", None, base_members)
     two = bool(extra and rng.random() < 0.5)
     T("hkReferencedObject", "hkBaseObject", [("memSizeAndFlags", T_INT, None), ("referenceCount", T_INT, None)] if two else [("memSizeAndFlags", T_INT, None)])
-    nref = 2 if two else 1
+    nbase = len(base_members)
+    nref = (2 if two else 1) + nbase
+    inh_types = [m[1] for m in base_members] + [T_INT] * (2 if two else 1)     # inherited members, root class first
+
+    def inherited_values(present, choices):
+        for p, t in zip(present, inh_types):
+            if p:
+                if t == T_BYTE:
+                    w.b.append(rng.randrange(256))
+                else:
+                    w.pint(rng.choice(choices))
     T("hkRootLevelContainerNamedVariant", None, [("name", T_STRING, None), ("className", T_STRING, None), ("variant", T_OBJECT, "hkReferencedObject")])
     T("hkRootLevelContainer", None, [("namedVariants", ARRAY | T_STRUCT, "hkRootLevelContainerNamedVariant")])
     cont_members = [("skeletons", ARRAY | T_OBJECT, "hkaSkeleton"), ("animations", ARRAY | T_OBJECT, "hkaAnimation"), ("bindings", ARRAY | T_OBJECT, "hkaAnimationBinding"),
@@ -140,9 +160,7 @@ def build_skeleton_tagfile(rng, bones, poses, extra=True):
     for mname in order:
         flags.append(mname == "skeletons" or (extra and rng.random() < 0.3))
     w.bits(flags)
-    for p in present:
-        if p:
-            w.pint(rng.choice([0, 1, -1, 70000, -70000, 2 ** 30]))
+    inherited_values(present, [0, 1, -1, 70000, -70000, 2 ** 30])
     for mname, f in zip(order, flags[nref:]):
         if f:
             if mname == "skeletons":
@@ -156,9 +174,7 @@ def build_skeleton_tagfile(rng, bones, poses, extra=True):
     needed = {"parentIndices", "bones", "referencePose"}
     flags = list(present) + [(m in needed) or (m not in never and extra and rng.random() < 0.4) for m in sorder]
     w.bits(flags)
-    for p in present:
-        if p:
-            w.pint(rng.choice([0, 5, -3, 123456]))
+    inherited_values(present, [0, 5, -3, 123456])
     for mname, f in zip(sorder, flags[nref:]):
         if not f:
             continue
